@@ -31,5 +31,27 @@ CHECKS = {
     },
 }
 
-HOOK_COMMITS = ["da8b80e"]
+def _gen_builder_names():
+    import os, re
+    p = os.path.join(os.path.dirname(os.path.abspath(__file__)), "harness", "u_builder_gen.rs")
+    return re.findall(r"fn (s\w+)\(\)", open(p).read())
+
+
+IB = "@builder::verif_kani_in_builder::"
+_STEP_OPS = ["name_empty", "name_set", "with_reducer", "with_reducers_0", "with_reducers_2", "add_reducer", "without_reducer", "with_capacity", "with_policy", "with_middleware", "with_middlewares_0", "with_middlewares_2", "add_middleware"]
+CHECKS["C17"] = {
+    "bounds": "inductive step: ONE setter (13 setter/argument-shape cases) from an ARBITRARY builder record - symbolic capacity (any usize), policy, without_reducer flag and initial state; container shapes (reducers,middlewares) in {(2,1),(0,0),(1,2)}, name empty / non-empty; build(): arbitrary record in 4 shapes; wiring: sequences of <=3 public builder calls with capacity 0..3",
+    "outside": "the text of the pool/thread name (formatting is stubbed); containers with more than 3 elements; the lift from one step to call histories of any length is an induction argument in DESIGN.md, not tool-checked",
+    "assumptions": ["the step harnesses read and write StoreBuilder's private fields (hook H3); a field added to the builder is left at its StoreBuilder::new default in the arbitrary pre-state"],
+    "quick": [H(IB + "step_" + o, "one call of the setter from an arbitrary builder record (3 shapes); every field afterwards equals the record-of-last-settings model", "1 step, 3 shapes, scalars fully symbolic", timeout_s=300) for o in _STEP_OPS]
+    + [H(IB + "build_validate_" + x, "build() on an arbitrary record: Err exactly when capacity=0 or name empty or (no reducer and not without_reducer)", "shape " + x, timeout_s=300) for x in "abcd"]
+    + [H("u_builder::" + w, "public-API call sequence applied to the real builder, build(), behavioural probes of the built store: queue capacity seen by channel::bounded, policy (which send primitive, what happens on a full queue, Ok/Err of Dispatcher::dispatch), reducer and middleware identity and order through one real do_reduce", "concrete call sequence of 2-3 calls; state/actions symbolic", timeout_s=400)
+       for w in ["wire_without_then_cap", "wire_cap_then_without", "wire_reducers_append", "wire_mw_replace", "wire_cap_policy_mw", "wire_policy_last_wins"]]
+    + [H("u_builder::twin_u_builder", "vacuity twin: a model that ignores without_reducer() must be refuted", "", role="twin", timeout_s=300)],
+    "thorough": [H("u_builder::" + w, "public-API call sequence + behavioural probes", "concrete sequence; data symbolic", timeout_s=400)
+       for w in ["wire_reducer_replace", "wire_mw_append", "wire_policy_cap", "wire_name_policy_cap", "wire_cap_last_wins", "wire_name_last_wins"]]
+    + [H("u_builder_gen::" + n, "generated: every one- and two-call sequence over the 20-operation alphabet, all probes", "concrete sequence; data symbolic", timeout_s=400) for n in _gen_builder_names()],
+}
+
+HOOK_COMMITS = ["da8b80e", "8cd617e"]
 NOT_APPLICABLE = {}
